@@ -28,4 +28,14 @@ RaceNext == \/ hist = <<>> /\ (Connect("c1") \/ Connect("c2"))
             \/ Len(hist) = 4 /\ (\E c \in Clients : AuthRace(c) \/ Chat(c) \/ Connect(c))
             \/ Len(hist) = 5 /\ (\E c \in Clients : AuthRace(c) \/ Auth(c, "good") \/ \E d \in Clients : AuthRaceRm(c, d))
 RaceSpec == Init /\ [][RaceNext]_vars
+(* bursts of refused strangers around authenticated operators *)
+StrNext == \/ hist = <<>> /\ Connect("c1")
+           \/ Len(hist) = 1 /\ Auth("c1", "good")
+           \/ Len(hist) = 2 /\ Strangers
+           \/ Len(hist) = 3 /\ (Chat("c1") \/ Register("a1"))
+           \/ Len(hist) = 4 /\ Strangers
+           \/ Len(hist) = 5 /\ Connect("c2")
+           \/ Len(hist) = 6 /\ Auth("c2", "good")
+           \/ Len(hist) = 7 /\ Chat("c2")
+StrSpec == Init /\ [][StrNext]_vars
 =============================================================================
